@@ -682,8 +682,41 @@ func r11_6(c *Ctx) {
 		// that the scanner has no read error: inputScanner == nil edge or
 		// inputScanner.Err() == nil edge.
 		blocked := map[cfgEdge]bool{}
+		isInputScanner := func(v ssa.Value) bool { _, ok := isFieldLoad(v, "parser.Parser", "inputScanner"); return ok }
+		// a local that holds the scanner's error, or nil where the scanner is known to be gone (clean EOF)
+		readErrLocal := func(v ssa.Value) bool {
+			phi, ok := v.(*ssa.Phi)
+			if !ok {
+				return false
+			}
+			sawCall := false
+			for i, e := range phi.Edges {
+				switch {
+				case isScannerErrCall(e):
+					sawCall = true
+				case isNilConst(e):
+					pred := phi.Block().Preds[i]
+					okEdge := factGuards(fn, pred, factNil(isInputScanner, true))
+					if !okEdge && len(pred.Instrs) > 0 {
+						if ifi, isIf := pred.Instrs[len(pred.Instrs)-1].(*ssa.If); isIf {
+							for si, sb := range pred.Succs {
+								if sb == phi.Block() && edgeEstablishes(ifi, si, factNil(isInputScanner, true)) {
+									okEdge = true
+								}
+							}
+						}
+					}
+					if !okEdge {
+						return false
+					}
+				default:
+					return false
+				}
+			}
+			return sawCall
+		}
 		for _, j := range ifsIn(fn) {
-			if sn, ok := nilEdge(j, isScannerErrCall); ok {
+			if sn, ok := nilEdge(j, func(v ssa.Value) bool { return isScannerErrCall(v) || readErrLocal(v) }); ok {
 				blocked[cfgEdge{j.Block(), sn}] = true
 			}
 			if sn, ok := nilEdge(j, func(v ssa.Value) bool { _, ok := isFieldLoad(v, "parser.Parser", "inputScanner"); return ok }); ok {
